@@ -138,7 +138,7 @@ def gen_history(rng, nsteps):
             j = len(pool) - 1  # the null member
         if rng.random() < 0.1:
             i, j = j, i
-        steps.append([rng.choice(OPS), i, j, rng.choice(["op", "op", "spec", "part", "iop", "look"])])
+        steps.append([rng.choice(OPS), i, j, rng.choice(["op", "op", "spec", "part", "iop", "look", "edit-arg"])])
     return {"mode": "history", "pool": pool, "steps": steps, "probes": probes, "on_map": on_map}
 
 
@@ -437,6 +437,21 @@ def run_history(case, ctx):
             reused = True
         kcls = f"{op}/{null_pos(nt)}/history"
         a, b = objs[i], objs[j]
+        if via == "edit-arg":
+            # the owner of a container argument of leaf i edits it in place: every combination that has the leaf as an
+            # operand is the Boolean combination of what its operands give NOW (terms share the leaf's term, objects the
+            # leaf's argument)
+            leaf_i = i if ti["c"] == "leaf" else None
+            if leaf_i is not None:
+                held = getattr(getattr(objs[leaf_i], "callable", None), "args", ())
+                for k, arg in enumerate(ti.get("args", [])):
+                    if type(arg) is list and "$" not in repr(arg) and k < len(held) and type(held[k]) is list and held[k] is not arg:
+                        arg.append("zz-added")
+                        held[k].append("zz-added")
+                        fps[:] = [canon(o) for o in objs]  # (every member that has the leaf as an operand shows the new argument)
+                        ctx.count("history:argument-edited-in-place")
+                        break
+            via = "op"
         if via == "look":
             # the caller looks at two pool members (compares, prints, hashes, serialises, copies, derives from them) and
             # only then combines them: looking is a read, every member must stay what it was
